@@ -100,6 +100,26 @@ def gen(seed, tier):
         segs = [seg(0, lines[:len(lines) // 2]), seg(500, lines[len(lines) // 2:])]
         cases.append(H("C19-p%dL-a" % i, dict(core), segs))
         cases.append(H("C19-p%dL-b" % i, dict(core, D=1), segs))
+    # position frames whose CPR fields are zero (one or both), between ordinary pairs: both paths treat them alike
+    for i in range(n // 3):
+        icao = r.choice(ICAOS)
+        lat, lon = r.choice([(0.01, 0.01), (-0.01, -0.01), (r.uniform(-60, 60), r.uniform(-170, 170))])
+        tc = r.randint(9, 18)
+        alt = r.getrandbits(12) | 0x10
+        fr = []
+        t = 0
+        for step in range(r.randint(4, 8)):
+            k = r.random()
+            par = r.randint(0, 1)
+            if k < 0.35:
+                la, lo = r.choice([(0, 0), (0, r.getrandbits(17) | 1), (r.getrandbits(17) | 1, 0)])
+                me = me_airborne_pos(tc, alt, par, la, lo)
+            else:
+                me = g.me_airpos(lat + r.uniform(-0.0005, 0.0005), lon + r.uniform(-0.0005, 0.0005), par, tc)
+            fr.append(seg(t, [g.f_df17(icao, me)]))
+            t += r.choice([0, 500, 1000, 4000])
+        cases.append(H("C19-u%dz-a" % i, {}, fr))
+        cases.append(H("C19-u%dz-b" % i, {"U": 1}, fr))
     for i in range(2 * n):
         segs = history(g, lambda a: valid_frame(g, a), junk=0.0)
         cases.append(H("C19-u%d-a" % i, {}, segs))
